@@ -38,7 +38,8 @@ def main():
               "files_changed": meta.get("files_changed"), "source": src}
     try:
         copy_to = meta.get("demo_copy_to") or "cmd/keymasterd/zz_demo_test.go"
-        copy_to = re.sub(r"^/tmp/m-[a-z0-9]+/", "", copy_to)
+        copy_to = copy_to.split()[0]        # some records append a remark after the path
+        copy_to = re.sub(r"^/tmp/(m|r2|r3)-[a-z0-9]+/", "", copy_to)
         if os.path.isdir(os.path.join(wt, copy_to)) or not copy_to.endswith(".go"):
             copy_to = os.path.join(copy_to, "zz_demo_%s_test.go" % sid.replace("-", "_"))
         pkg = "./" + os.path.dirname(copy_to) + "/"
